@@ -2091,6 +2091,25 @@ enum Op {
     EmbedBatch { coll: Option<String>, items: Vec<(String, Vec<Lit>)> },
     /// SIMILAR 'key' | [vector] LIMIT k [COSINE] [INTO coll] [WHERE filter]
     SimilarIn { coll: Option<String>, key: Option<String>, vec: Vec<Lit>, k: u64, cosine_kw: bool, filter: Option<Cond> },
+    /// SELECT <group cols>, <aggregates> FROM t [WHERE ..] [GROUP BY <group cols>] [HAVING COUNT(..) op n]
+    /// aggregate = (function 0 COUNT(*) 1 COUNT 2 SUM 3 AVG 4 MIN 5 MAX, column)
+    Aggregate { table: String, group: Vec<String>, aggs: Vec<(u8, String)>, cond: Option<Cond>, having: Option<(usize, B, i64)> },
+}
+
+fn agg_text(a: &(u8, String), st: &Style) -> String {
+    let f = match a.0 {
+        0 | 1 => "COUNT",
+        2 => "SUM",
+        3 => "AVG",
+        4 => "MIN",
+        _ => "MAX",
+    };
+    let arg = if a.0 == 0 { "*".to_string() } else { a.1.clone() };
+    if st.tight {
+        format!("{}({})", st.kw(f), arg)
+    } else {
+        format!("{}( {} )", st.kw(f), arg)
+    }
 }
 
 fn window_text(limit: &Option<u64>, offset: &Option<u64>, st: &Style) -> String {
@@ -2179,6 +2198,8 @@ impl Op {
             Op::SimilarIn { coll: Some(_), .. } => "similar-vector-into-where",
             Op::SimilarIn { key: Some(_), .. } => "similar-key-where",
             Op::SimilarIn { .. } => "similar-vector-where",
+            Op::Aggregate { group, .. } if group.is_empty() => "select-aggregate",
+            Op::Aggregate { .. } => "select-group-by",
         }
     }
 
@@ -2200,6 +2221,7 @@ impl Op {
             Op::EmbedBatch { items, .. } if items.iter().any(|(_, v)| v.iter().any(|l| l.is_neg())) => Some("embed-vector"),
             Op::SimilarIn { key: None, vec, .. } if vec.iter().any(|l| l.is_neg()) => Some("similar-vector"),
             Op::SimilarIn { filter: Some(f), .. } if f.has_neg() => Some("similar-where"),
+            Op::Aggregate { cond, .. } if cneg(cond) => Some("where"),
             _ => None,
         }
     }
@@ -2300,6 +2322,18 @@ impl Op {
                 let its: Vec<String> = items.iter().map(|(key, v)| format!("({}, {})", quote_str(key, st.dq_strings), vec_text(v, st))).collect();
                 format!("{} {} [{}]{}", k("EMBED"), k("BATCH"), its.join(", "), coll.as_ref().map(|c| format!(" {} {}", k("INTO"), c)).unwrap_or_default())
             }
+            Op::Aggregate { table, group, aggs, cond, having } => {
+                let mut items: Vec<String> = group.clone();
+                items.extend(aggs.iter().map(|a| agg_text(a, st)));
+                let mut s = format!("{} {} {} {}{}", k("SELECT"), items.join(", "), k("FROM"), table, wh(cond));
+                if !group.is_empty() {
+                    s.push_str(&format!(" {} {} {}", k("GROUP"), k("BY"), group.join(", ")));
+                }
+                if let Some((i, op, n)) = having {
+                    s.push_str(&format!(" {} {} {} {}", k("HAVING"), agg_text(&aggs[*i], st), bin_text(*op, st), n));
+                }
+                s
+            }
             Op::SimilarIn { coll, key, vec, k: n, cosine_kw, filter } => format!(
                 "{} {} {} {}{}{}{}",
                 k("SIMILAR"),
@@ -2334,6 +2368,9 @@ enum Direct {
     Keys(Vec<String>, Option<u64>),
     /// the call succeeded; `Some(s)`: the text result has to mention s
     Done(Option<String>),
+    /// expected result rows of an aggregate query: group key values, then one value per aggregate
+    /// (`None` = not judged); `grouped` = GROUP BY present
+    Groups { n_keys: usize, rows: Vec<(Vec<Value>, Vec<Option<Value>>)>, grouped: bool },
 }
 
 fn es<E: std::fmt::Display>(e: E) -> String {
@@ -2432,6 +2469,7 @@ fn direct(op: &Op, router: &QueryRouter) -> Result<Direct, String> {
             }
             Ok(Direct::Count(n))
         }
+        Op::Aggregate { table, group, aggs, cond, having } => aggregate_direct(rel, table, group, aggs, cond, having),
         Op::SimilarIn { coll, key, vec, k, filter, .. } => {
             // the query names a stored key of the collection the statement targets
             let q: Vec<f32> = match (key, coll) {
@@ -2575,6 +2613,117 @@ fn direct(op: &Op, router: &QueryRouter) -> Result<Direct, String> {
             let q: Vec<f32> = vec.iter().map(lit_f32).collect();
             similar_direct(v, &q, *k, *metric)
         }
+    }
+}
+
+/// the engine route of an aggregate query: the rows matching WHERE are partitioned by the group key;
+/// a group whose key has no NULL is aggregated by the engine's own count / count_column / sum / avg /
+/// min / max under `WHERE AND key = value`; a group with a NULL in its key (the engine has no
+/// `IS NULL` condition) by a fold over the engine's rows with SQL's definition (NULLs ignored,
+/// COUNT of nothing = 0, AVG/MIN/MAX of nothing = NULL; SUM of nothing is left open because the
+/// un-grouped route answers 0.0 where SQL says NULL)
+fn aggregate_direct(rel: &RelationalEngine, table: &str, group: &[String], aggs: &[(u8, String)], cond: &Option<Cond>, having: &Option<(usize, B, i64)>) -> Result<Direct, String> {
+    let base = cond.as_ref().map(|c| c.direct()).unwrap_or(Condition::True);
+    let rows = rel.select(table, base.clone()).map_err(es)?;
+    let schema = rel.get_schema(table).map_err(es)?;
+    for c in group.iter().chain(aggs.iter().filter(|a| a.0 != 0).map(|a| &a.1)) {
+        if !schema.columns.iter().any(|x| &x.name == c) {
+            return Err(format!("column {} not found", c));
+        }
+    }
+    let cell = |r: &Row, c: &str| -> Value { r.get(c).cloned().unwrap_or(Value::Null) };
+    let mut keys: Vec<Vec<Value>> = Vec::new();
+    if group.is_empty() {
+        keys.push(vec![]);
+    } else {
+        for r in &rows {
+            let k: Vec<Value> = group.iter().map(|c| cell(r, c)).collect();
+            if !keys.contains(&k) {
+                keys.push(k);
+            }
+        }
+    }
+    let mut out: Vec<(Vec<Value>, Vec<Option<Value>>)> = Vec::new();
+    for key in keys {
+        let members: Vec<&Row> = rows.iter().filter(|r| group.iter().zip(key.iter()).all(|(c, v)| &cell(r, c) == v)).collect();
+        let null_key = key.iter().any(|v| matches!(v, Value::Null));
+        let mut vals: Vec<Option<Value>> = Vec::new();
+        if !null_key {
+            let mut c = base.clone();
+            for (col, v) in group.iter().zip(key.iter()) {
+                c = c.and(Condition::Eq(col.clone(), v.clone()));
+            }
+            if !group.is_empty() && rel.count(table, c.clone()).map_err(es)? != members.len() as u64 {
+                // the engine's own `key = value` selection disagrees with its scan: a query-engine matter, not judged here
+                return Ok(Direct::Done(None));
+            }
+            for (f, col) in aggs {
+                vals.push(Some(match f {
+                    0 => Value::Int(rel.count(table, c.clone()).map_err(es)? as i64),
+                    1 => Value::Int(rel.count_column(table, col, c.clone()).map_err(es)? as i64),
+                    2 => Value::Float(rel.sum(table, col, c.clone()).map_err(es)?),
+                    3 => rel.avg(table, col, c.clone()).map_err(es)?.map_or(Value::Null, Value::Float),
+                    4 => rel.min(table, col, c.clone()).map_err(es)?.unwrap_or(Value::Null),
+                    _ => rel.max(table, col, c.clone()).map_err(es)?.unwrap_or(Value::Null),
+                }));
+            }
+        } else {
+            for (f, col) in aggs {
+                let present: Vec<Value> = members.iter().map(|r| cell(r, col)).filter(|v| !matches!(v, Value::Null)).collect();
+                let nums: Vec<f64> = present
+                    .iter()
+                    .filter_map(|v| match v {
+                        Value::Int(i) => Some(*i as f64),
+                        Value::Float(x) => Some(*x),
+                        _ => None,
+                    })
+                    .collect();
+                let ord = |a: &Value, b: &Value| match (a, b) {
+                    (Value::Int(x), Value::Int(y)) => x.cmp(y),
+                    (Value::Float(x), Value::Float(y)) => x.partial_cmp(y).unwrap_or(std::cmp::Ordering::Equal),
+                    (Value::String(x), Value::String(y)) => x.cmp(y),
+                    (Value::Bool(x), Value::Bool(y)) => x.cmp(y),
+                    _ => std::cmp::Ordering::Equal,
+                };
+                vals.push(match f {
+                    0 => Some(Value::Int(members.len() as i64)),
+                    1 => Some(Value::Int(present.len() as i64)),
+                    2 => if nums.is_empty() { None } else { Some(Value::Float(nums.iter().sum())) },
+                    3 => Some(if nums.is_empty() { Value::Null } else { Value::Float(nums.iter().sum::<f64>() / nums.len() as f64) }),
+                    // MIN/MAX of booleans is not something the router's fold orders; left open
+                    4 | 5 if present.iter().any(|v| matches!(v, Value::Bool(_))) => None,
+                    4 => Some(present.iter().cloned().min_by(|a, b| ord(a, b)).unwrap_or(Value::Null)),
+                    _ => Some(present.iter().cloned().max_by(|a, b| ord(a, b)).unwrap_or(Value::Null)),
+                });
+            }
+        }
+        if let Some((i, op, n)) = having {
+            let cnt = match &vals[*i] {
+                Some(Value::Int(x)) => *x,
+                _ => return Err("HAVING on a non-count aggregate".into()),
+            };
+            let keep = match op {
+                B::Eq => cnt == *n,
+                B::Ne => cnt != *n,
+                B::Lt => cnt < *n,
+                B::Le => cnt <= *n,
+                B::Gt => cnt > *n,
+                _ => cnt >= *n,
+            };
+            if !keep {
+                continue;
+            }
+        }
+        out.push((key, vals));
+    }
+    Ok(Direct::Groups { n_keys: group.len(), rows: out, grouped: !group.is_empty() })
+}
+
+fn value_close(a: &Value, b: &Value) -> bool {
+    match (a, b) {
+        // sums and averages may be accumulated in another row order
+        (Value::Float(x), Value::Float(y)) => f64_eq_value(*x, *y) || (x - y).abs() <= 1e-9 * x.abs().max(y.abs()),
+        _ => a == b,
     }
 }
 
@@ -2743,6 +2892,38 @@ fn results_agree(a: &QueryResult, b: &Direct, rep: &mut Report) -> Result<(), St
             }
             Ok(())
         }
+        (QueryResult::Rows(_), Direct::Done(None)) => {
+            rep.count("aggregate_engine_inconsistent_not_judged", 1);
+            Ok(())
+        }
+        (QueryResult::Rows(x), Direct::Groups { n_keys, rows, grouped }) => {
+            if x.len() != rows.len() {
+                return bad("number of result groups differs");
+            }
+            let mut used = vec![false; x.len()];
+            for (key, vals) in rows {
+                let hit = x.iter().enumerate().position(|(i, r)| {
+                    !used[i]
+                        && r.values.len() == n_keys + vals.len()
+                        && r.values.iter().take(*n_keys).map(|p| &p.1).zip(key.iter()).all(|(a, b)| a == b)
+                        && r.values.iter().skip(*n_keys).map(|p| &p.1).zip(vals.iter()).all(|(a, e)| e.as_ref().map_or(true, |e| value_close(a, e)))
+                });
+                match hit {
+                    Some(i) => used[i] = true,
+                    None => return bad("no result row carries this group's key and aggregate values"),
+                }
+            }
+            rep.count(if *grouped { "grouped_statements_agreed" } else { "ungrouped_aggregate_statements_agreed" }, 1);
+            rep.count("groups_compared", rows.len() as u64);
+            rep.count("groups_with_null_in_key_agreed", rows.iter().filter(|(k, _)| k.iter().any(|v| matches!(v, Value::Null))).count() as u64);
+            if rows.is_empty() {
+                rep.count("aggregate_statements_with_no_group", 1);
+            }
+            if *grouped && rows.len() == 1 {
+                rep.count("grouped_statements_with_single_group", 1);
+            }
+            Ok(())
+        }
         (QueryResult::Value(_), Direct::Done(None)) => Ok(()),
         (QueryResult::Value(s), Direct::Done(Some(m))) if s.contains(m.as_str()) => Ok(()),
         _ => bad("result kinds differ"),
@@ -2818,6 +2999,7 @@ fn direct_dbg(d: &Direct) -> String {
         Direct::Find { cands, must, must_not, exact, limit } => format!("find: candidates {:?}, qualifying {:?}, not qualifying {:?}, exact {}, limit {:?}", cands, must, must_not, exact, limit),
         Direct::Keys(k, l) => format!("keys {:?} limit {:?}", k, l),
         Direct::Done(x) => format!("done {:?}", x),
+        Direct::Groups { rows, .. } => format!("groups {:?}", rows),
     }
 }
 
@@ -3030,7 +3212,7 @@ fn gen_op(r: &mut Rng, m: &mut Model) -> Op {
         }
     };
     loop {
-        match r.below(166) {
+        match r.below(184) {
             0..=5 => {
                 let name = r.pick(TABLE_NAMES).to_string();
                 let n = 1 + r.below(4);
@@ -3182,6 +3364,48 @@ fn gen_op(r: &mut Rng, m: &mut Model) -> Op {
                 let n = 1 + r.below(3);
                 let items = (0..n).map(|_| (if !m.keys.is_empty() && r.bool() { r.pick(&m.keys).clone() } else { vkey(r) }, gen_vec(r, m.dim))).collect();
                 return Op::EmbedBatch { coll: if r.chance(2, 3) { Some(r.pick(COLLECTIONS).to_string()) } else { None }, items };
+            }
+            166..=183 if !live.is_empty() => {
+                // prefer the table that received most rows
+                let fullest = *live.iter().max_by_key(|i| m.tables[**i].next_k).unwrap();
+                let t = &m.tables[if r.chance(2, 3) { fullest } else { *r.pick(&live) }];
+                let others: Vec<&ColM> = t.cols.iter().filter(|c| c.name != "k").collect();
+                if others.is_empty() {
+                    continue;
+                }
+                // group columns: mostly the nullable low-cardinality ones; sometimes the unique key, sometimes none
+                let mut group: Vec<String> = Vec::new();
+                if !r.chance(1, 6) {
+                    let n = 1 + r.below(2);
+                    for _ in 0..n {
+                        let c = if r.chance(1, 10) { "k".to_string() } else { r.pick(&others).name.clone() };
+                        if !group.contains(&c) {
+                            group.push(c);
+                        }
+                    }
+                }
+                let mut aggs: Vec<(u8, String)> = Vec::new();
+                let n = 1 + r.below(4);
+                for _ in 0..n {
+                    let f = r.below(6) as u8;
+                    let c = *r.pick(&others);
+                    let ok = match f {
+                        0 | 1 => true,
+                        2 | 3 => matches!(c.ty, Ty::Int | Ty::Float),
+                        _ => !matches!(c.ty, Ty::Bool),
+                    };
+                    let a = (f, if f == 0 { String::new() } else { c.name.clone() });
+                    if ok && !aggs.contains(&a) {
+                        aggs.push(a);
+                    }
+                }
+                if aggs.is_empty() {
+                    aggs.push((0, String::new()));
+                }
+                let counts: Vec<usize> = aggs.iter().enumerate().filter(|(_, a)| a.0 <= 1).map(|(i, _)| i).collect();
+                let having = if !group.is_empty() && !counts.is_empty() && r.chance(1, 4) { Some((*r.pick(&counts), *r.pick(&[B::Eq, B::Ne, B::Lt, B::Le, B::Gt, B::Ge]), r.range(0, 3))) } else { None };
+                let cond = if r.chance(1, 3) { Some(gen_cond(r, t, 1)) } else { None };
+                return Op::Aggregate { table: t.name.clone(), group, aggs, cond, having };
             }
             150..=165 => {
                 let coll = if r.chance(4, 5) { Some(r.pick(COLLECTIONS).to_string()) } else { None };
@@ -3404,6 +3628,16 @@ fn equiv_case(case_seed: u64, rep: &mut Report) {
             (Ok(qa), Ok(db)) => {
                 rep.count("both_ok", 1);
                 rep.count(&format!("both_ok[{}]", fam), 1);
+                if let Op::Aggregate { table, aggs, cond, group, .. } = &op {
+                    // was there a NULL in an aggregated column among the rows the query covers?
+                    let c = cond.as_ref().map(|c| c.direct()).unwrap_or(Condition::True);
+                    if let Ok(rows) = b.relational().select(table, c) {
+                        let hit = rows.iter().any(|r| aggs.iter().any(|a| a.0 != 0 && matches!(r.get(&a.1), None | Some(Value::Null))));
+                        if hit {
+                            rep.count(if group.is_empty() { "ungrouped_aggregates_over_null_cells_agreed" } else { "grouped_aggregates_over_null_cells_agreed" }, 1);
+                        }
+                    }
+                }
                 if let (Op::SimilarIn { coll: Some(c), key: Some(k), .. }, QueryResult::Similar(x)) = (&op, qa) {
                     if !x.is_empty() {
                         rep.count("similar_key_into_nonempty_agreed", 1);
@@ -3606,11 +3840,15 @@ fn main() {
             ("trees_random", args.by_tier(5_000, 50_000)),
             ("statements", args.by_tier(1_000, 20_000)),
             ("both_ok", 500),
+            ("statements[select-group-by]", 100),
+            ("groups_compared", 150),
+            ("grouped_aggregates_over_null_cells_agreed", 15),
+            ("groups_with_null_in_key_agreed", 15),
         ]
     };
     let meta = Meta {
         property: "C15",
-        rule: "totality: one evaluation = one input string (<= 4096 bytes: random bytes, printable ASCII, unicode incl. characters whose uppercase has another length, keyword/operator soup, 1-4 token-level mutations of ~870 statements taken from the parser's and the router's own tests, nesting of 19 kinds up to the depth that fits in 4 KiB) pushed through tokenize, parse_expr, parse, parse_all (each twice) and, when execution stays inside the engines, QueryRouter::execute_parsed and ::execute, on a 2 MiB-stack thread of a child process; distinct by hash of the text, non-trivial if it lexes to >= 2 tokens. precedence: one evaluation = one expression tree (all 722 two-operator, 180 unary/binary and 34 295 three-operator trees; random trees of height 2-8 over all 19 binary and 3 unary operators plus IS NULL/IN/BETWEEN/LIKE/calls/CASE/arrays/tuples) whose minimal-parentheses and fully-parenthesised prints both parse back to it through parse_expr and through the statement parser in SELECT-item, WHERE and UPDATE-SET position; distinct by hash of the minimal print, non-trivial with >= 2 operators. equivalence: one evaluation = one completed program of 20-49 generated statements (CREATE/DROP TABLE, CREATE INDEX, SHOW TABLES, INSERT, SELECT with projection/ORDER BY/LIMIT/OFFSET, UPDATE, DELETE, NODE/EDGE CREATE/GET/DELETE/LIST, NEIGHBORS [BY SIMILAR], PATH, FIND NODE/EDGE, EMBED STORE/GET/DELETE/BATCH [INTO collection], SHOW/COUNT EMBEDDINGS, SIMILAR key|vector [COSINE] [INTO collection] [WHERE metadata filter] [CONNECTED TO], ENTITY CREATE/CONNECT; every LIMIT/OFFSET is drawn from {absent, 0, 1-4, 10, larger than any result}) run as text on one router and as direct calls on a twin, compared after every statement and on the final engine states; distinct by hash of the statement texts.",
+        rule: "totality: one evaluation = one input string (<= 4096 bytes: random bytes, printable ASCII, unicode incl. characters whose uppercase has another length, keyword/operator soup, 1-4 token-level mutations of ~870 statements taken from the parser's and the router's own tests, nesting of 19 kinds up to the depth that fits in 4 KiB) pushed through tokenize, parse_expr, parse, parse_all (each twice) and, when execution stays inside the engines, QueryRouter::execute_parsed and ::execute, on a 2 MiB-stack thread of a child process; distinct by hash of the text, non-trivial if it lexes to >= 2 tokens. precedence: one evaluation = one expression tree (all 722 two-operator, 180 unary/binary and 34 295 three-operator trees; random trees of height 2-8 over all 19 binary and 3 unary operators plus IS NULL/IN/BETWEEN/LIKE/calls/CASE/arrays/tuples) whose minimal-parentheses and fully-parenthesised prints both parse back to it through parse_expr and through the statement parser in SELECT-item, WHERE and UPDATE-SET position; distinct by hash of the minimal print, non-trivial with >= 2 operators. equivalence: one evaluation = one completed program of 20-49 generated statements (CREATE/DROP TABLE, CREATE INDEX, SHOW TABLES, INSERT, SELECT with projection/ORDER BY/LIMIT/OFFSET, SELECT COUNT(*)/COUNT/SUM/AVG/MIN/MAX [GROUP BY 1-2 columns] [HAVING COUNT..], UPDATE, DELETE, NODE/EDGE CREATE/GET/DELETE/LIST, NEIGHBORS [BY SIMILAR], PATH, FIND NODE/EDGE, EMBED STORE/GET/DELETE/BATCH [INTO collection], SHOW/COUNT EMBEDDINGS, SIMILAR key|vector [COSINE] [INTO collection] [WHERE metadata filter] [CONNECTED TO], ENTITY CREATE/CONNECT; every LIMIT/OFFSET is drawn from {absent, 0, 1-4, 10, larger than any result}) run as text on one router and as direct calls on a twin, compared after every statement and on the final engine states; distinct by hash of the statement texts.",
         assumptions: vec![
             "the documented table is expr.rs:7-18 / the book's Binding Power Table: OR < AND < comparison < | < ^ < & < shifts < + - || < * / % < unary NOT - ~ < postfix, binary operators left-associative; where it is silent (a compound operand of IS NULL / IN / BETWEEN / LIKE, bounds of BETWEEN, LIKE pattern) the printer always writes parentheses".into(),
             "expr.rs answering TooDeep (its documented nesting limit of 64) is an error, not a regrouping; such prints are skipped and counted".into(),
